@@ -145,13 +145,21 @@ def blend(col, case):
         for shape in ("array", "scalar", "0d", "2d", "3d"):
             try:
                 if shape == "array":
-                    got = A.e_eq_mixed_mk(arr.copy())
+                    given = arr.copy()
+                    got = A.e_eq_mixed_mk(given)
+                    # the caller's temperatures are the caller's: untouched, and good for a second call
+                    again = A.e_eq_mixed_mk(given) if np.array_equal(given, arr) else None
+                    if again is None or not np.array_equal(np.asarray(again), np.asarray(got)):
+                        col.violation("mixed-overwrites-its-input", dict(rep, observed=given.tolist()))
                 elif shape in ("2d", "3d"):
                     # fields in which every row / plane mixes the three regimes (ice, blend, liquid side by side)
                     reps = 2 if shape == "2d" else 6
                     field = np.stack([np.roll(arr, r) for r in range(reps)])
                     field = field if shape == "2d" else field.reshape(2, 3, len(arr))
-                    got = np.asarray(A.e_eq_mixed_mk(field.copy()))
+                    given = field.copy()
+                    got = np.asarray(A.e_eq_mixed_mk(given))
+                    if not np.array_equal(given, field):
+                        col.violation("mixed-overwrites-its-input", dict(rep, shape=shape))
                     # the same field in Fortran order and as a transposed view: position decides, not memory layout
                     for lname, alt in (("fortran-order", np.asfortranarray(field)), ("transposed-view", np.ascontiguousarray(field.T).T)):
                         g2 = np.asarray(A.e_eq_mixed_mk(alt))
